@@ -33,6 +33,10 @@ type syncOpt struct {
 	// the stream down (once) and keeps waiting; only quiescence AFTER the
 	// teardown is a deadlock (C04: "return once the stream is torn down").
 	TeardownWhenStuck bool
+	// EOFOnSendError: when Send returns an error the receiver just sees the
+	// end of the stream (a pipe or TCP transport whose sending process goes
+	// away) instead of a transport error (gRPC status).
+	EOFOnSendError bool
 	// OnPair is called with the pair before the calls start.
 	OnPair func(p *wire.Pair)
 	// SendFn / RecvFn override the real calls (reference peers).
@@ -81,7 +85,7 @@ func runSync(o syncOpt) *syncRes {
 	rd := make(chan error, 1)
 	go func() {
 		err := sendFn(p.S.Context(), p.S)
-		if err == nil {
+		if err == nil || o.EOFOnSendError {
 			p.S.CloseSend()
 		} else {
 			p.S.Abort(fmt.Errorf("rpc error: %v", err))
